@@ -17,7 +17,7 @@ RULE = ("case = a history: prelude (2-3 matrices built by add_frame and/or by th
         "alphabet (del/remove/rename frame, id change through the handle, add_ecu, copy_frame both directions, merge, deepcopy, "
         "reader-style append, interleaved lookups) + 1500 random bodies of length <= 40 + 3000 focused bodies (3..9 operations about one matrix, two frame objects and "
         "two identifiers: look up, change in place, remove, change back, look up again); thorough: every body of length <= 3 + "
-        "20000 random bodies of length <= 60. Non-trivial = distinct history whose body contains an edit and a lookup follows it.")
+        "The closing sweep also looks up the names 'A*', '?' and '[AB]', which no frame is called. 20000 random bodies of length <= 60. Non-trivial = distinct history whose body contains an edit and a lookup follows it.")
 EXHAUSTIVE = {"quick": False, "thorough": False}
 PARTIAL = ["frame_by_header_id (a plain scan) is exercised on snapshots of a matrix (case 'hdr'), not inside the edit histories",
            "frame objects are compared through harness-assigned handles (object identity)"]
@@ -87,7 +87,7 @@ def closing(nmats):
     for m in range(nmats):
         for i, e in IDS:
             ops.append(["byId", m, i, e])
-        for n in NAMES + ["D"]:
+        for n in NAMES + ["D", "A*", "?", "[AB]"]:         # a name is a name, not a pattern
             ops.append(["byName", m, n])
         for p in PGNS:
             ops.append(["byPgn", m, p])
